@@ -1,8 +1,10 @@
 """C02 -- results equal the sequential computation: value, order, exception.
 
 Tie: K_reassembly is regenerated from pool.py on every run (chunk-size arithmetic of
-_map_async, MapResult.__init__/_set/_ack index arithmetic and branch structure, pinned
-text of _get_tasks/mapstar/starmapstar) and proved equal to Model.Reassembly; the real
+_map_async, MapResult.__init__/_set/_ack index arithmetic and branch structure,
+IMapIterator._set/_set_length and IMapUnorderedIterator._set incl. the reorder loop, pinned
+text of _get_tasks/mapstar/starmapstar/IMapIterator.next/ApplyResult.get) and proved equal
+to Model.Reassembly; the real
 MapResult / IMapIterator / IMapUnorderedIterator / ApplyResult / Pool._get_tasks /
 Pool._map_async / Pool.imap objects are driven on generated histories and compared with the
 model inside Coq.  Independently of the model, property monitors judge the implementation's
@@ -22,8 +24,8 @@ MANIFEST = dict(
          'change nothing; IMapIterator: for every interleaving of arrivals (each index once), next() calls and set_length(n) at any '
          'point, next() returns obj_0..obj_{n-1} in order (error items raise at their own position, iteration continues) then '
          'StopIteration, never earlier; IMapUnorderedIterator releases exactly the arrived items in arrival order; starmap/apply '
-         'corollaries. The index arithmetic and branch structure of _map_async / MapResult.__init__/_set/_ack are regenerated from '
-         'pool.py on every run and proved equal to the model. REFUTED (proved by witness, reproduced on the real code): with '
+         'corollaries. The index arithmetic and branch structure of _map_async / MapResult.__init__/_set/_ack and the bodies of '
+         'IMapIterator._set/_set_length, IMapUnorderedIterator._set are regenerated from pool.py on every run and proved equal to the model. REFUTED (proved by witness, reproduced on the real code): with '
          'chunksize > 1 an error chunk ends the imap/imap_unordered generator -- the remaining items are never delivered; '
          'outside the property but documented: an explicit chunksize <= 0 makes map return [None]*n.',
     note='Trusted: Coq kernel, translate/kernels/reassembly.py (statement slicing + pykernel expression translation), PyVal '
